@@ -392,6 +392,22 @@ func (x *Exec) execInstr(in ssa.Instruction, st *State, pc Term) {
 	case *ssa.UnOp:
 		x.execUnOp(i, st, pc)
 	case *ssa.FieldAddr:
+		if x.fc != nil && len(x.fc.Cuts) > 0 {
+			stt := i.X.Type().Underlying().(*types.Pointer).Elem().Underlying().(*types.Struct)
+			fname := stt.Field(i.Field).Name()
+			for _, cut := range x.fc.Cuts {
+				if cut.Hit || cut.Field != fname {
+					continue
+				}
+				cut.Hit = true
+				env := x.newEnv(st, x.entry)
+				env.at = i.Pos()
+				goal := x.evalClause(env, cut.C)
+				x.vc.oblige(&Obligation{Name: cut.C.Name, Kind: "cut", Tags: cut.C.Tags, Goal: goal, PC: pc, Src: cut.C.Src, Pos: x.posStr(i.Pos()), Observe: x.observations()})
+				x.vc.assume(implies(pc, goal), "cut fact "+cut.C.Name)
+				x.vc.stage++
+			}
+		}
 		if !isAddrInstr(i.X) {
 			if _, isAlloc := i.X.(*ssa.Alloc); !isAlloc {
 				a := x.resolveAddr(i.X)
